@@ -110,17 +110,20 @@ func ruleNibbles(c *Ctx, r *Report, rule string) {
 
 // bindArmAST gathers the pieces of the BIND arm.
 type bindParts struct {
-	clause   *ast.CaseClause
-	filter   *ast.RangeStmt
-	blocks   types.Object
-	typeVar  types.Object
-	selVar   types.Object
-	tgtVar   types.Object
-	table    *ast.SwitchStmt
-	guards   []*ast.IfStmt
-	warnIf   *ast.IfStmt
-	freshOK  bool
-	stmtsPos map[ast.Stmt]int
+	clause      *ast.CaseClause
+	filter      *ast.RangeStmt
+	blocks      types.Object
+	typeVar     types.Object
+	selVar      types.Object
+	tgtVar      types.Object
+	table       *ast.SwitchStmt
+	guards      []*ast.IfStmt
+	warnIf      *ast.IfStmt
+	freshOK     bool
+	stmtsPos    map[ast.Stmt]int
+	helper      *ast.FuncDecl // the candidate filter lives in this function
+	helperParts *bindParts
+	clauseRoot  ast.Node
 }
 
 func (c *Ctx) bindParts(vm *vmModel) (*bindParts, string) {
@@ -142,6 +145,13 @@ func (c *Ctx) bindParts(vm *vmModel) (*bindParts, string) {
 				if call, ok := stripParens(rhs).(*ast.CallExpr); ok {
 					if id, ok := call.Fun.(*ast.Ident); ok && id.Name == "readConst" {
 						bp.typeVar = obj
+					}
+					// candidates := helper(vm.result, blockType): look for the filter inside the helper
+					if fn, ok := c.callee(call).(*types.Func); ok && isNamedSlice(c.typeOf(call), "Block") {
+						if hd := c.funcDecls[fn]; hd != nil && hd.Body != nil && len(call.Args) == 2 && c.fieldPath(call.Args[0]) == "<vm>.result" {
+							bp.blocks = obj
+							bp.helper = hd
+						}
 					}
 					if c.calleeName(call) == "make" {
 						if isNamedSlice(c.typeOf(call), "Block") {
@@ -191,8 +201,48 @@ func (c *Ctx) bindParts(vm *vmModel) (*bindParts, string) {
 			}
 		}
 	}
+	if bp.helper != nil {
+		// inside the helper: a fresh slice, a range over the first parameter, return of the slice
+		hb := &bindParts{clause: bp.clause, stmtsPos: map[ast.Stmt]int{}}
+		hb.typeVar = c.paramObj(bp.helper, 1)
+		first := c.paramObj(bp.helper, 0)
+		for _, s := range bp.helper.Body.List {
+			switch s := s.(type) {
+			case *ast.AssignStmt:
+				if len(s.Lhs) == 1 && len(s.Rhs) == 1 {
+					if call, ok := s.Rhs[0].(*ast.CallExpr); ok && c.calleeName(call) == "make" && isNamedSlice(c.typeOf(call), "Block") {
+						hb.blocks = c.objOf(s.Lhs[0])
+						if n, isC := c.intConst(call.Args[1]); isC && n == 0 {
+							hb.freshOK = true
+						}
+					}
+					if cl, ok := stripParens(s.Rhs[0]).(*ast.CompositeLit); ok && isNamedSlice(c.typeOf(cl), "Block") && len(cl.Elts) == 0 {
+						hb.blocks = c.objOf(s.Lhs[0])
+						hb.freshOK = true
+					}
+				}
+			case *ast.DeclStmt:
+				for _, sp := range s.Decl.(*ast.GenDecl).Specs {
+					if vs, ok := sp.(*ast.ValueSpec); ok && len(vs.Values) == 0 && len(vs.Names) == 1 {
+						if o := c.infoFor(vs).Defs[vs.Names[0]]; o != nil && isNamedSlice(o.Type(), "Block") {
+							hb.blocks = o
+							hb.freshOK = true
+						}
+					}
+				}
+			case *ast.RangeStmt:
+				if c.isObj(s.X, first) {
+					hb.filter = s
+				}
+			}
+		}
+		bp.helperParts = hb
+		if hb.filter == nil || hb.blocks == nil {
+			return bp, "the candidate helper does not range over its first argument into a fresh slice"
+		}
+	}
 	switch {
-	case bp.filter == nil:
+	case bp.filter == nil && bp.helper == nil:
 		return bp, "no loop over vm.result"
 	case bp.blocks == nil:
 		return bp, "no candidate slice"
@@ -210,6 +260,11 @@ func isNamedSlice(t types.Type, elem string) bool {
 }
 
 func ruleBindFilter(c *Ctx, r *Report, rule string, bp *bindParts) {
+	outer := bp
+	if bp.helperParts != nil {
+		bp = bp.helperParts
+		bp.clauseRoot = outer.helper.Body
+	}
 	r.rule(rule, 3, "the candidates are collected into a fresh slice by ranging over all of vm.result in order and appending exactly the blocks whose Type equals the BIND operand")
 	pos := c.pos(bp.clause.Pos())
 	r.check(bp.freshOK, rule, "fresh-slice", "candidates start as a new empty slice", "the candidate slice must be a fresh empty slice (not a view of vm.result)", pos)
@@ -253,7 +308,31 @@ func ruleBindFilter(c *Ctx, r *Report, rule string, bp *bindParts) {
 	r.check(ok, rule, "type-filter", "append iff b.Type == operand, for every block, in order", "BIND candidate loop: "+why, c.pos(f.Pos()))
 	// the candidate slice is not modified elsewhere in the arm
 	mods := 0
-	ast.Inspect(bp.clause, func(n ast.Node) bool {
+	var scope ast.Node = bp.clause
+	if bp.clauseRoot != nil {
+		scope = bp.clauseRoot
+	}
+	if outer != bp {
+		// in the arm itself the returned slice is assigned once and never modified
+		am := 0
+		ast.Inspect(outer.clause, func(n ast.Node) bool {
+			if as, ok := n.(*ast.AssignStmt); ok {
+				for _, l := range as.Lhs {
+					if c.isObj(l, outer.blocks) {
+						am++
+					}
+					if ix, ok := l.(*ast.IndexExpr); ok && c.isObj(ix.X, outer.blocks) {
+						am += 10
+					}
+				}
+			}
+			return true
+		})
+		if am != 1 {
+			mods += 100
+		}
+	}
+	ast.Inspect(scope, func(n ast.Node) bool {
 		if as, ok := n.(*ast.AssignStmt); ok {
 			for _, l := range as.Lhs {
 				if c.isObj(l, bp.blocks) {
@@ -294,35 +373,38 @@ func ruleCountGuards(c *Ctx, r *Report, rule string, bp *bindParts) {
 		return false
 	}
 	for _, g := range bp.guards {
-		if bp.stmtsPos[g] > tablePos || bp.stmtsPos[g] < bp.stmtsPos[bp.filter] || !returnsErr(g) {
+		afterFilter := true
+		if bp.filter != nil && bp.helper == nil {
+			afterFilter = bp.stmtsPos[g] > bp.stmtsPos[bp.filter]
+		}
+		if bp.stmtsPos[g] > tablePos || !afterFilter || !returnsErr(g) {
 			continue
 		}
-		switch be := stripParens(g.Cond).(type) {
-		case *ast.BinaryExpr:
-			if k, isC := c.intConst(be.Y); isC && lenOf(be.X) && ((be.Op == token.EQL && k == 0) || (be.Op == token.LSS && k == 1)) {
+		atoms, pure := c.nnf(g.Cond, true, nil).conjuncts()
+		if !pure {
+			continue
+		}
+		if len(atoms) == 1 {
+			if b, ok := c.boundOf(atoms[0]); ok && lenOf(b.X) && b.Hi != nil && *b.Hi == 0 {
 				empty = true
 			}
-			if be.Op == token.LAND {
-				// len(blocks) != 1 && selector == bindOne (either order)
-				parts := []ast.Expr{be.X, be.Y}
-				okLen, okSel := false, false
-				for _, p := range parts {
-					pb, ok := stripParens(p).(*ast.BinaryExpr)
-					if !ok {
-						continue
-					}
-					if k, isC := c.intConst(pb.Y); isC {
-						if lenOf(pb.X) && pb.Op == token.NEQ && k == 1 {
-							okLen = true
-						}
-						if c.isObj(pb.X, bp.selVar) && pb.Op == token.EQL && k == one {
-							okSel = true
-						}
-					}
+		}
+		if len(atoms) == 2 {
+			okLen, okSel := false, false
+			for _, a := range atoms {
+				b, ok := c.boundOf(a)
+				if !ok {
+					continue
 				}
-				if okLen && okSel {
-					exactlyOne = true
+				if lenOf(b.X) && b.Ne != nil && *b.Ne == 1 {
+					okLen = true
 				}
+				if c.isObj(b.X, bp.selVar) && b.Lo != nil && b.Hi != nil && *b.Lo == one && *b.Hi == one {
+					okSel = true
+				}
+			}
+			if okLen && okSel {
+				exactlyOne = true
 			}
 		}
 	}
@@ -429,29 +511,30 @@ func ruleSelectionTable(c *Ctx, r *Report, rule string, bp *bindParts) {
 			}
 		}
 		for _, cond := range cc.List {
-			be, ok := stripParens(cond).(*ast.BinaryExpr)
-			if !ok || be.Op != token.LAND {
-				got["?/"+fmt.Sprint(i)] = "unrecognised case condition"
-				continue
-			}
-			var t, s string
-			for _, p := range []ast.Expr{be.X, be.Y} {
-				pb, ok := stripParens(p).(*ast.BinaryExpr)
-				if !ok || pb.Op != token.EQL {
+			for _, conj := range c.nnf(cond, true, nil).dnf() {
+				var t, s string
+				okConj := len(conj) == 2
+				for _, a := range conj {
+					b, isB := c.boundOf(a)
+					if !isB || b.Lo == nil || b.Hi == nil || *b.Lo != *b.Hi {
+						okConj = false
+						continue
+					}
+					switch {
+					case c.isObj(b.X, bp.tgtVar):
+						t = constNameOf(tgts, *b.Lo)
+					case c.isObj(b.X, bp.selVar):
+						s = constNameOf(sels, *b.Lo)
+					default:
+						okConj = false
+					}
+				}
+				if !okConj || t == "" || s == "" {
+					got["?/"+fmt.Sprint(i)] = "unrecognised case condition"
 					continue
 				}
-				k, isC := c.intConst(pb.Y)
-				if !isC {
-					continue
-				}
-				if c.isObj(pb.X, bp.tgtVar) {
-					t = constNameOf(tgts, k)
-				}
-				if c.isObj(pb.X, bp.selVar) {
-					s = constNameOf(sels, k)
-				}
+				got[t+"/"+s] = res
 			}
-			got[t+"/"+s] = res
 		}
 	}
 	for _, k := range sortedKeys(want) {
